@@ -13,9 +13,10 @@ pub const WORDS: &[&str] = &[
     "sigma",
 ];
 pub const NUMBERS: &[&str] = &["2", "10", "9.5", "-3", "0", "7", "100", "3.25", "-10", "42"];
-pub const DIRS: &[&str] = &["a", "b", "src", "docs", "my dir", "v1.2", "lib", "pkg"];
+pub const DIRS: &[&str] = &["a", "b", "src", "docs", "my dir", "v1.2", "lib", "pkg", "v1..v2"];
 pub const STEMS: &[&str] = &[
     "main", "util", "x", "mod", "data", "conf", "app", "b", "my file", "v2.conf", "a", "[id]", "{slug}", "odd\\name",
+    "notes..old",
 ];
 /// Languages whose generated content needs no wrapper (any line is acceptable between comments).
 pub const HASH_EXTS: &[&str] = &["py", "rb", "sh", "py", "rb", "sh", "py", "md", "markdown", "html"];
@@ -292,6 +293,9 @@ impl<'a> Gen<'a> {
             } else {
                 self.fresh_name()
             };
+            // a name is a free attribute value: it may contain a colon (`file:api:v2` then refers to
+            // block `api:v2` of `file`: a reference is split at its first colon)
+            let n = if self.rng.chance(1, 10) { format!("{n}:v2") } else { n };
             b.attrs.push(("name".into(), n));
         }
         // nesting up to three levels deep
@@ -743,6 +747,40 @@ impl<'a> Gen<'a> {
         }
     }
 
+    /// The same-file shorthand `:name`, written identically in two files that each have a block
+    /// of that name: every file must resolve it against itself.
+    pub fn add_shared_shorthand_affects(&mut self) {
+        let n = self.world.files.len();
+        let eligible: Vec<usize> = (0..n)
+            .filter(|&i| {
+                let mut c = 0;
+                for_each_block(&self.world.files[i].blocks, &mut |_| c += 1);
+                c >= 2
+            })
+            .collect();
+        if eligible.len() < 2 {
+            return;
+        }
+        let a = eligible[self.rng.below(eligible.len())];
+        let mut b = eligible[self.rng.below(eligible.len())];
+        if a == b {
+            b = *eligible.iter().find(|&&x| x != a).unwrap();
+        }
+        let name = format!("shared{}", self.rng.below(3));
+        for fi in [a, b] {
+            // first block gets the name, second one refers to it
+            let mut k = 0;
+            for_each_block_mut(&mut self.world.files[fi].blocks, &mut |blk| {
+                if k == 0 {
+                    blk.set_attr("name", &name);
+                } else if k == 1 {
+                    blk.set_attr("affects", &format!(":{name}"));
+                }
+                k += 1;
+            });
+        }
+    }
+
     /// Chooses stdin mode and per-file diffs. Returns true in diff mode.
     pub fn gen_stdin(&mut self, p_diff: usize, allow_insert: bool) -> bool {
         if !self.rng.chance(p_diff, 100) {
@@ -774,6 +812,10 @@ impl<'a> Gen<'a> {
         let FileDiff::Insert { line, edit, more, .. } = self.world.files[i].diff.clone() else {
             return;
         };
+        // git recognises a rename by similarity: a re-written tag line changes too much of a small file
+        if self.world.files[i].diff.edits().iter().any(|(_, e)| matches!(e, LineEdit::Replaced { old } if is_tag_rewrite(old))) {
+            return;
+        }
         let path = self.world.files[i].path.clone();
         let (dir, name) = match path.rsplit_once('/') {
             Some((d, n)) => (format!("{d}/"), n.to_string()),
@@ -838,6 +880,23 @@ impl<'a> Gen<'a> {
         while used(&old) {
             old.push('x');
         }
+        // the start tag of the block around the line is re-written (say, an attribute changed): a
+        // "modified line" whose old text shares no character with the new one, so the whole line
+        // counts as changed. The block is then selected through its tag, not its content.
+        if self.rng.chance(1, 7) {
+            if let Some(b) = r
+                .blocks
+                .iter()
+                .filter(|b| b.start_line < line && line < b.end_line && b.tag_lines == 1)
+                .max_by_key(|b| b.start_line)
+            {
+                let tildes = "~".repeat(3 + self.rng.below(30));
+                let fresh = !taken.iter().any(|t| matches!(t, LineEdit::Replaced { old } if *old == tildes));
+                if fresh && !r.lines[b.start_line - 1].contains('~') {
+                    return (b.start_line, LineEdit::Replaced { old: tildes });
+                }
+            }
+        }
         match self.rng.below(10) {
             0..=2 => (line, LineEdit::Replaced { old }),
             3..=5 => {
@@ -874,6 +933,9 @@ impl<'a> Gen<'a> {
                     && *l <= r.lines.len()
                     && !r.blocks.iter().any(|b| b.is_start_tag_line(*l) || b.end_line + 1 == *l)
                     && r.blocks.iter().any(|b| b.start_line < *l && *l <= b.end_line)
+            }
+            LineEdit::Replaced { old } if is_tag_rewrite(old) => {
+                r.blocks.iter().any(|b| b.start_line == *l && b.tag_lines == 1) && !r.lines[*l - 1].contains('~')
             }
             _ => cands.contains(l),
         })
